@@ -29,7 +29,13 @@ type captureStream struct {
 }
 
 func (s *captureStream) Context() context.Context                  { return context.Background() }
-func (s *captureStream) MsgSend(drpc.Message, drpc.Encoding) error { return nil }
+func (s *captureStream) MsgSend(m drpc.Message, _ drpc.Encoding) error {
+	// a writer may use the generic entry point instead of Send
+	if e, ok := m.(*remote.Envelope); ok {
+		return s.Send(e)
+	}
+	return nil
+}
 func (s *captureStream) MsgRecv(drpc.Message, drpc.Encoding) error { return errors.New("not a reader") }
 func (s *captureStream) CloseSend() error                          { return nil }
 func (s *captureStream) Close() error                              { return nil }
@@ -50,7 +56,23 @@ type feedStream struct {
 
 func (s *feedStream) Context() context.Context                  { return context.Background() }
 func (s *feedStream) MsgSend(drpc.Message, drpc.Encoding) error { return nil }
-func (s *feedStream) MsgRecv(drpc.Message, drpc.Encoding) error { return errors.New("unused") }
+func (s *feedStream) MsgRecv(m drpc.Message, _ drpc.Encoding) error {
+	// a reader may use the generic entry point instead of Recv (e.g. to decode into an envelope of its own):
+	// like the real decoder this APPENDS to whatever the destination already holds
+	e, err := s.Recv()
+	if err != nil {
+		return err
+	}
+	dst, ok := m.(*remote.Envelope)
+	if !ok {
+		return errors.New("feedStream: unexpected destination type")
+	}
+	dst.Senders = append(dst.Senders, e.Senders...)
+	dst.Targets = append(dst.Targets, e.Targets...)
+	dst.TypeNames = append(dst.TypeNames, e.TypeNames...)
+	dst.Messages = append(dst.Messages, e.Messages...)
+	return nil
+}
 func (s *feedStream) CloseSend() error                          { return nil }
 func (s *feedStream) Close() error                              { return nil }
 func (s *feedStream) Send(*remote.Envelope) error               { return nil }
